@@ -1,0 +1,75 @@
+//! Verification hooks, only compiled with `--cfg specs_verif`.
+//!
+//! Nothing in here changes the behaviour of the library: `yield_point` is a
+//! no-op unless a harness installs a callback, and the snapshot types are
+//! plain copies of internal state handed out read-only.
+
+use std::sync::atomic::{AtomicUsize, Ordering};
+
+/// Identifies the shared-memory step that follows a yield point.
+#[derive(Clone, Copy, Debug, PartialEq, Eq, Hash)]
+pub enum Site {
+    /// Initial load of `atomic_increment`.
+    IncLoad,
+    /// A compare-exchange of `atomic_increment`.
+    IncCas,
+    /// Initial load of `atomic_decrement`.
+    DecLoad,
+    /// A compare-exchange of `atomic_decrement`.
+    DecCas,
+    /// Read of the free-list slot won by `pop_atomic`.
+    PopSlot,
+    /// `raised.add_atomic` in `allocate_atomic`.
+    AllocRaise,
+    /// Generation read in `allocate_atomic`.
+    AllocGen,
+    /// Aliveness test in `kill_atomic`.
+    KillCheck,
+    /// `killed.add_atomic` in `kill_atomic`.
+    KillSet,
+    /// Read of `raised` / generation in `EntitiesRes::is_alive`.
+    AliveRaised,
+    /// `open` of the entities join.
+    JoinOpen,
+    /// `get` of the entities join.
+    JoinGet,
+    /// Push onto the lazy update queue.
+    LazyPush,
+}
+
+static HOOK: AtomicUsize = AtomicUsize::new(0);
+
+/// Installs (or removes) the callback invoked at every yield point.
+pub fn set_yield_hook(f: Option<fn(Site)>) {
+    HOOK.store(f.map(|f| f as usize).unwrap_or(0), Ordering::SeqCst);
+}
+
+/// Calls the installed callback, if any.
+#[inline]
+pub fn yield_point(site: Site) {
+    let h = HOOK.load(Ordering::Relaxed);
+    if h != 0 {
+        // SAFETY: the only non-zero values ever stored are `fn(Site)` pointers.
+        let f: fn(Site) = unsafe { std::mem::transmute::<usize, fn(Site)>(h) };
+        f(site);
+    }
+}
+
+/// Read-only copy of the entity allocator's complete state.
+#[derive(Clone, Debug, PartialEq, Eq, Hash, PartialOrd, Ord)]
+pub struct AllocSnapshot {
+    /// Signed generation per index (0 = never used).
+    pub generations: Vec<i32>,
+    /// Indices in the `alive` set.
+    pub alive: Vec<u32>,
+    /// Indices in the `raised` set.
+    pub raised: Vec<u32>,
+    /// Indices in the `killed` set.
+    pub killed: Vec<u32>,
+    /// The free list (complete backing vector, in order).
+    pub cache: Vec<u32>,
+    /// The free list's atomic length.
+    pub cache_len: usize,
+    /// The fresh-index counter.
+    pub max_id: usize,
+}
